@@ -13,7 +13,7 @@ int main(void) {
      cache is still in its initial (all-zero) state */
   {
     int allz = 1;
-    for (int i = 0; i < 8; i++) { int w = (MODE == 4 || MODE == 6) ? (h[i] ^ g[i]) : h[i]; if (w != 0) allz = 0; }
+    for (int i = 0; i < 8; i++) { int w = (MODE == 4 || MODE >= 6) ? (h[i] ^ g[i]) : h[i]; if (w != 0) allz = 0; }
     VASSUME(!allz);
   }
 #endif
